@@ -147,20 +147,31 @@ impl Lexer {
                     break;
                 }
                 LexingMode::RawString => {
-                    // `2024-05-06` is a date, `2030-2024`, `2024-size` and `20000-1` are subtractions:
-                    // a date goes on with a month or a day, i.e. one or two digits
-                    let is_date = c == '-'
-                        && looks_like_date(&s)
-                        && (1..=2).contains(
-                            &input_part
-                                .iter()
-                                .skip(self.char_index as usize + 1)
-                                .take_while(|c| c.is_ascii_digit())
-                                .count(),
-                        );
+                    // what follows in the same word: for a date its month and day, else the next operand
+                    // (only looked at for an operator character: a long word stays linear)
+                    let rest: String = match c {
+                        '+' | '-' | '*' | '/' | '%' => input_part
+                            .iter()
+                            .skip(if self.char_index < 0 { usize::MAX } else { self.char_index as usize + 1 })
+                            .take(48)
+                            .take_while(|c| !matches!(c, ' ' | ',' | '(' | ')' | '{' | '}' | '=' | '!' | '<' | '>' | '~'))
+                            .collect(),
+                        _ => String::new(),
+                    };
+                    // (when the look-ahead was cut off, its last, incomplete operand is not judged)
+                    let rest_expr: &str = match rest.chars().count() {
+                        48 => rest
+                            .rfind(|c: char| matches!(c, '+' | '-' | '*' | '/' | '%'))
+                            .map_or("", |cut| &rest[..cut]),
+                        _ => rest.as_str(),
+                    };
+                    // `2024-05-06` is a date; `2030-2024`, `2024-size`, `20000-1` and `2000-10` are
+                    // subtractions: a date goes on with a month and a day
+                    let is_date = c == '-' && looks_like_date(&s) && date_goes_on(&s, &rest);
                     if !is_date {
-                        // inside a word that reads as an expression so far (`2*3`, `size*2`) an operator
-                        // character is an operator, also right after a comparison (`size = 2*3`)
+                        // an operator character inside a word is an operator if the word reads as an
+                        // expression on both sides of it (`2*3`, `size*2`, also right after a comparison:
+                        // `size = 2*3`); `2018*.txt`, `2018-report.txt` and `cb23ef45%` are literals
                         if self.is_arithmetic_op_char(c)
                             || (self.after_operator && matches!(c, '*' | '/' | '%') && {
                                 self.after_operator = false;
@@ -169,7 +180,13 @@ impl Lexer {
                                 is_operator
                             })
                         {
-                            let maybe_expr = looks_like_expression(&s);
+                            // (a bracket right after the operator opens an operand: `2+(2+2)`)
+                            let bracket_follows = matches!(
+                                input_part.get(self.char_index as usize + 1),
+                                Some('(') | Some('{')
+                            );
+                            let maybe_expr = looks_like_expression(&s)
+                                && (bracket_follows || looks_like_expression(rest_expr));
                             if maybe_expr {
                                 break;
                             }
@@ -333,9 +350,42 @@ static DATE_ALIKE_REGEX: LazyLock<Regex> = LazyLock::new(|| {
 });
 
 fn looks_like_expression(s: &str) -> bool {
-    !s.split(|c: char| !c.is_ascii_alphanumeric()).any(|s| {
-        Field::from_str(s).is_err() && Function::from_str(s).is_err() && s.parse::<i64>().is_err()
+    // operands separated by operators and brackets; an operand is a number or the name of a
+    // column or function (names may contain underscores: `line_count`)
+    let mut operands = s
+        .split(|c: char| matches!(c, '+' | '-' | '*' | '/' | '%' | '(' | ')' | '{' | '}' | ' '))
+        .filter(|operand| !operand.is_empty())
+        .peekable();
+
+    if operands.peek().is_none() {
+        return false;
+    }
+
+    operands.all(|operand| {
+        let is_number = operand.chars().all(|c| c.is_ascii_digit() || c == '.')
+            && operand.chars().filter(|c| *c == '.').count() <= 1
+            && operand.chars().any(|c| c.is_ascii_digit());
+        is_number || Field::from_str(operand).is_ok() || Function::from_str(operand).is_ok()
     })
+}
+
+/// After `YYYY-` a date goes on with month and day, after `YYYY-MM-` with a day.
+fn date_goes_on(so_far: &str, rest: &str) -> bool {
+    let digits = |text: &str| text.chars().take_while(|c| c.is_ascii_digit()).count();
+
+    let first = digits(rest);
+    if !(1..=2).contains(&first) {
+        return false;
+    }
+
+    if so_far.contains('-') {
+        return true;
+    }
+
+    match rest[first..].strip_prefix('-') {
+        Some(day) => (1..=2).contains(&digits(day)),
+        None => false,
+    }
 }
 
 fn looks_like_date(s: &str) -> bool {
